@@ -1,6 +1,6 @@
 (* Properties/C13.v — Transport strategy and truncation fallback are honoured. *)
-From RsdnsModel Require Import Base GenHeader Client.
-From RsdnsModel.Proofs Require Import ClientProofs.
+From RsdnsModel Require Import Base GenHeader Client Timed.
+From RsdnsModel.Proofs Require Import ClientProofs TimedProofs TimedGeneral.
 Open Scope N_scope.
 (* strategies: 0 = Udp (default), 1 = Tcp, 2 = NoTcp; [udp]/[tcp] are the outcomes of the two
    exchanges, the event list says which of them were started, in order *)
@@ -12,3 +12,21 @@ Theorem C13_strategy : forall std udp tcp,
      (flag_tc fl = true -> query_raw_impl std 0 udp tcp = ([EvUdpExchange; EvTcpExchange], tcp)) /\
      (flag_tc fl = false -> query_raw_impl std 0 udp tcp = ([EvUdpExchange], Ok d))).
 Proof. exact strategy_honoured. Qed.
+
+(* OVER TIME, IN EVERY WORLD (Timed.v: the whole raw query of each of the four clients, any arrivals,
+   any TCP peer, any lateness and CPU time).  UDP-only strategy (2): one UDP exchange, no TCP
+   exchange is ever started.  TCP-only strategy (1): no datagram is ever sent, one TCP exchange.
+   Default strategy (0): the TCP exchange follows the UDP exchange exactly when the datagram the
+   filter accepted has TC set; if TC is clear the caller gets that datagram, at the instant it was
+   accepted; if the UDP exchange ends without an answer nothing else is started. *)
+Theorem C13_strategy_over_time : forall std smol q lifetime qt jit proc buf strategy arrs srv sends ev r t,
+  client_query_timed std smol q lifetime qt jit proc buf strategy arrs srv = (sends, ev, r, t) ->
+  (strategy = 2 -> ev = [EvUdpExchange]) /\
+  (strategy = 1 -> ev = [EvTcpExchange] /\ sends = []) /\
+  (strategy = 0 -> exists r1 t1 rest1,
+     exchange_of std smol q lifetime qt jit proc (deliver buf arrs) = (sends, r1, t1, rest1) /\
+     match r1 with
+     | Ok (d, fl) => if flag_tc fl then ev = [EvUdpExchange; EvTcpExchange] else ev = [EvUdpExchange] /\ r = Ok d /\ t = t1
+     | _ => ev = [EvUdpExchange] /\ t = t1
+     end).
+Proof. exact strategy_over_time. Qed.
